@@ -396,8 +396,14 @@ func (c *Canary) handleTCP(eh *ethernet.Frame, iph *ipv4.Header, data []byte) er
 	switch {
 	case hdr.HasFlag(tcp.RST):
 		if state.State == SocketSynReceived {
-			// enter listen state
-			state.State = SocketListen
+			// the connection attempt is over. Its entry is this tuple's alone:
+			// kept in the table as a listening one it was found again by the
+			// segments of the tuple's next connection (whose own, newer entry
+			// comes later in the table), and that connection never became
+			// established
+			state.State = SocketClosed
+
+			c.stateTable.Remove(state)
 			return nil
 		}
 
